@@ -22,7 +22,7 @@ for name in names:
             results['apply'] = 'failed'
         for c in checks:
             t0 = time.time()
-            p = subprocess.run([sys.executable, os.path.join(V, 'tools', 'run_check.py'), c, '--tier', 'quick'], cwd=V,
+            p = subprocess.run([sys.executable, os.path.join(V, 'tools', 'run_check.py'), c, '--tier', 'quick'], cwd=V, env=dict(os.environ, VERIF_EVIDENCE_DIR=os.path.join(V, '_build', 'seed_evidence')),
                                stdout=subprocess.PIPE, stderr=subprocess.STDOUT, timeout=3000)
             out = p.stdout.decode('utf-8', 'replace')
             vio = [l for l in out.split('\n') if l.startswith('VIOLATION')]
